@@ -1,7 +1,7 @@
 (* PRun — evaluation helpers of the C12 correspondence run (tools/c12.py). *)
 From Coq Require Import List Bool Arith NArith String.
 From PT Require Import Lang.PSyntax Lang.ParsePolish Lang.ParsePolishProofs Lang.WritePolish
-     Lang.RoundTrip Lang.PShow.
+     Lang.RoundTrip Lang.ArgStr Lang.PShow.
 Import ListNotations.
 Open Scope string_scope.
 
@@ -21,5 +21,15 @@ Definition rt_case (T : ptable) (W : wtable) (s : sent) : list string :=
   | None => ["WERR"; show_bool (roundtrippable s); ""; ""]
   end.
 
-Definition argstr_case (W : wtable) (ss : list sent) : list string :=
-  match argstr W ss with Some w => [show_str w] | None => ["WERR"] end.
+Definition show_seq (r : res (list sent)) : string :=
+  match r with
+  | OK l => "OK " ++ concat ";" (map show_sent l)
+  | PErr e => "E " ++ show_perr e
+  | OErr e => "E " ++ show_oerr e
+  end.
+
+Definition argstr_case (T : ptable) (W : wtable) (ss : list sent) : list string :=
+  match argstr W ss with
+  | Some w => [show_str w; show_seq (from_argstr T w)]
+  | None => ["WERR"; ""]
+  end.
